@@ -4,7 +4,7 @@ Fixture keys are built once with real key material; per path the KeyFlags subpac
 overwritten from symbolic choices, a second (later) binding may be added, and the real KeyAction machinery decides."""
 from datetime import datetime, timezone
 
-from vlib.h import ob
+from vlib.h import ob, native
 from harness.sigfix import *          # noqa
 from harness import encfix
 from harness.encfix import Cipher, Feed
@@ -100,7 +100,7 @@ def configure(f0, f1, f2, rebound, f1new):
     eff0 = {KeyFlags.Certify} | set(pick(f0))
     eff1 = set(pick(f1new)) if rebound else set(pick(f1))
     eff2 = set(pick(f2))
-    return (eff0, eff1, eff2), undo
+    return (eff0, eff1, eff2), undo          # (a tuple: compared with capabilities_now() after the operation)
 
 
 class Used:
@@ -123,6 +123,11 @@ PKESessionKeyV3.decrypt_sk = _dec_sk
 COMPONENTS = [KEYP] + SUBS
 
 
+def capabilities_now():
+    """the effective capability sets as the library reports them now"""
+    return tuple(set(c._get_key_flags()) for c in COMPONENTS)
+
+
 def first_with(effs, wanted):
     for i, e in enumerate(effs):
         if e & wanted:
@@ -132,15 +137,28 @@ def first_with(effs, wanted):
 
 @ob('O16.1', 'sign / certify / encrypt use the first component (primary, then subkeys) whose most recent self-signature grants the capability, name exactly '
              'that component in the produced packet, and refuse when none has it', 'capability sets of primary and two subkeys chosen by symbolic index from 7 sets each; optionally a later re-binding of subkey 1 with another set; '
-             'operation in {sign, certify, encrypt}', cond_timeout={'q': 280, 't': 1500},
-    partitions={'q': [['op == %d' % o, 'not rebound', 'f1new == 0'] for o in range(3)] + [['op == %d' % o, 'rebound', 'f2 == 0'] for o in range(3)],
-                't': [['op == %d' % o, 'f0 == %d' % a] for o in range(3) for a in range(7)]})
+             'operation in {sign, certify, encrypt}; all 7^3 (7^4 with the re-binding) assignments, each path concrete and native; afterwards the capabilities the library reports are unchanged', cond_timeout={'q': 280, 't': 1500},
+    partitions=[['op == %d' % o, 'not rebound', 'f1new == 0'] for o in range(3)] + [['op == %d' % o, 'rebound', 'f0 %% 2 == %d' % h] for o in range(3) for h in range(2)])
 def selects_component(op: int, f0: int, f1: int, f2: int, rebound: bool, f1new: int) -> bool:
     """
     pre: 0 <= op < 3
     pre: 0 <= f0 < 7 and 0 <= f1 < 7 and 0 <= f2 < 7 and 0 <= f1new < 7
     post: _
     """
+    op, f0, f1, f2, f1new = conc(op, 3), conc(f0, 7), conc(f1, 7), conc(f2, 7), conc(f1new, 7)
+    rebound = True if rebound else False
+    with native():                      # every choice is concrete on this path: the key operations run as in production
+        return _selects_component(op, f0, f1, f2, rebound, f1new)
+
+
+def conc(sym, n):
+    for k in range(n):
+        if sym == k:
+            return k
+    return 0
+
+
+def _selects_component(op, f0, f1, f2, rebound, f1new):
     effs, undo = configure(f0, f1, f2, rebound, f1new)
     try:
         Oracle.reset()
@@ -158,8 +176,11 @@ def selects_component(op: int, f0: int, f1: int, f2: int, rebound: bool, f1new: 
                 Feed.reset([])
                 out = KEYP.pubkey.encrypt(msg, cipher=K.SymmetricKeyAlgorithm.AES128)
         except PGPError:
-            return idx is None
+            return idx is None and capabilities_now() == effs
         if idx is None:
+            return False
+        # using the key does not change what its components may do (on the key and on its public twin, which shares the signatures)
+        if capabilities_now() != effs:
             return False
         comp = COMPONENTS[idx]
         if op in (0, 1):
@@ -333,7 +354,66 @@ def decrypt_finds_subkey(r: int) -> bool:
     return bytes(dec.message) == b'hello' and len(Used.pk) == 1 and Used.pk[0].fingerprint == COMPONENTS[r].fingerprint
 
 
-SANITY = ['selects_component(0, 2, 0, 0, False, 0)', 'selects_component(0, 1, 2, 0, False, 0)', 'selects_component(0, 1, 5, 2, False, 0)', 'selects_component(0, 1, 5, 5, False, 0)',
+T_LATER = T_NEW + __import__('datetime').timedelta(seconds=50)
+
+
+def _foreign_cert_case(op, f0, f1, f2, fc, tamper):
+    import binascii
+    effs, undo = configure(f0, f1, f2, False, 0)
+    uid = KEYP.userids[0]
+    Oracle.reset()
+    cert = KEY2.certify(uid, usage=set(pick(fc)) or {KeyFlags.Authentication}, created=T_LATER, hash=HashAlgorithm.SHA256)
+    if tamper:
+        # the unhashed issuer key id is not protected by the signature: anyone can overwrite it with the certified key's own id
+        cert._signature.subpackets['Issuer'][0].issuer = bytearray(binascii.unhexlify(KEYP.fingerprint.keyid))
+    uid |= cert
+    try:
+        if uid.selfsig is cert:
+            return False
+        if capabilities_now() != effs:
+            return False
+        Oracle.reset()
+        Used.pk = []
+        wanted = ({KeyFlags.Sign}, {KeyFlags.Certify}, {KeyFlags.EncryptCommunications, KeyFlags.EncryptStorage})[op]
+        idx = first_with(effs, wanted)
+        try:
+            if op == 0:
+                out = KEYP.sign(b'doc', created=T_LATER, hash=HashAlgorithm.SHA256)
+            else:
+                msg = PGPMessage.new(b'x', compression=K.CompressionAlgorithm.Uncompressed)
+                Cipher.reset()
+                Feed.reset([])
+                out = KEYP.pubkey.encrypt(msg, cipher=K.SymmetricKeyAlgorithm.AES128)
+        except PGPError:
+            return idx is None
+        if idx is None:
+            return False
+        comp = COMPONENTS[idx]
+        if op == 0:
+            return out.signer == comp.fingerprint.keyid
+        return [p for p in out._sessionkeys][0].encrypter == comp.fingerprint.keyid
+    finally:
+        uid._signatures.remove(cert)
+        undo()
+
+
+@ob('O16.6', 'a certification by ANOTHER key never decides what a key may do - even a later one that carries key flags, and even when its (unprotected, unhashed) issuer key id '
+             'has been overwritten with the certified key\'s own id: the capabilities are those of the most recent SELF-signature',
+    'operation in {sign, encrypt}; own capability sets by symbolic index (7 x 7 x 7), flags on the foreign certification (7), issuer id tampered or not; each path concrete and native',
+    cond_timeout={'q': 280, 't': 900}, partitions=[['op == %d' % o, 'tamper' if t else 'not tamper', 'f0 %% 2 == %d' % h] for o in (0, 2) for t in (True, False) for h in range(2)])
+def foreign_certification_ignored(op: int, f0: int, f1: int, f2: int, fc: int, tamper: bool) -> bool:
+    """
+    pre: op in (0, 2)
+    pre: 0 <= f0 < 7 and 0 <= f1 < 7 and 0 <= f2 < 7 and 0 <= fc < 7
+    post: _
+    """
+    op, f0, f1, f2, fc = conc(op, 3), conc(f0, 7), conc(f1, 7), conc(f2, 7), conc(fc, 7)
+    tamper = True if tamper else False
+    with native():
+        return _foreign_cert_case(op, f0, f1, f2, fc, tamper)
+
+
+SANITY = ['foreign_certification_ignored(0, 1, 5, 5, 4, True)', 'foreign_certification_ignored(2, 1, 3, 5, 4, True)', 'foreign_certification_ignored(0, 1, 5, 5, 2, False)', 'foreign_certification_ignored(2, 0, 0, 3, 3, True)'] + ['selects_component(0, 2, 0, 0, False, 0)', 'selects_component(0, 1, 2, 0, False, 0)', 'selects_component(0, 1, 5, 2, False, 0)', 'selects_component(0, 1, 5, 5, False, 0)',
           'selects_component(1, 0, 0, 0, False, 0)', 'selects_component(2, 1, 0, 3, False, 0)', 'selects_component(2, 1, 2, 5, False, 0)', 'selects_component(0, 1, 5, 0, True, 2)',
           'selects_component(0, 1, 2, 0, True, 5)', 'identity_choice(1, 2, 1, 0)', 'identity_choice(0, 2, 1, 0)', 'identity_choice(1, 1, 2, 2)', 'identity_choice(3, 0, 2, 5)', 'identity_choice(2, 4, 0, 0)', 'enforcement_off(1, 5, 5)', 'enforcement_off(1, 2, 0)'] + ['precondition_matrix(%d, %d)' % (f, o) for f in range(5) for o in range(7)] + \
          ['decrypt_finds_subkey(%d)' % r for r in range(4)]
